@@ -23,7 +23,7 @@ VARIANTS = [
     ("bed3", None, {}), ("bed6", None, {}), ("bed6", None, {"score_mode": "dot"}), ("bed6", None, {"score_mode": "mixed"}), ("bed6", None, {"score_mode": "mixed", "score_small": True}), ("bed6", None, {"dot_strand": True}),
     ("bed12", None, {}), ("bed12", None, {"trailing_comma": True}), ("bdg", None, {}), ("narrowpeak", None, {}), ("sizes", None, {}), ("gfa", None, {}),
     ("pairs", None, {}), ("gtf", None, {"comments": True}), ("gff3", None, {"comments": True}), ("wig", None, {"comments": True}),
-    ("vcf", None, {}), ("vcf", None, {"info_defs_alt": True}), ("vcf_noinfo", None, {}), ("vcf_noinfo", "VCFWithInfoAsStringBuffer", {}), ("vcf_gt", None, {}),
+    ("vcf", None, {}), ("vcf", None, {"info_defs_alt": True}), ("vcf", None, {"info_defs_alt": "number"}), ("vcf_noinfo", None, {}), ("vcf_noinfo", "VCFWithInfoAsStringBuffer", {}), ("vcf_gt", None, {}),
     ("vcf_gt", "VCFMatrixBuffer", {}), ("vcf_gt", "VCFBuffer2", {}), ("vcf_gt", "VCFBuffer2", {"rich_format": True}), ("vcf_gt", "VCFMatrixBuffer", {"rich_format": True}), ("vcf_phased", "PhasedVCFMatrixBuffer", {}), ("vcf_phased", "PhasedHaplotypeVCFMatrixBuffer", {}),
     ("sam", None, {}), ("sam", None, {"tags": False}), ("csv4", None, {}), ("ssv4", None, {}),
 ]
